@@ -236,3 +236,130 @@ def simulate(sk, arch_kind, wl_kind, arch_opts, trips):
         computes += 1
         prev = cur
     return values, computes
+
+
+# =============================================================================================
+# C06: occupancy by element liveness
+# =============================================================================================
+def holders_by_memory(sk, arch_kind, wl_kind):
+    """memory -> list of (position, tensor, is_backing) ; Tolls hold nothing."""
+    ename, tensors, outs, rvs, kinds, comp, L, chains = _struct(sk, arch_kind, wl_kind)
+    out = {}
+    seen = set()
+    for i, it in enumerate(sk):
+        if it[0] != "S":
+            continue
+        backing = it[2] not in seen
+        seen.add(it[2])
+        if kinds[it[1]] == "mem":
+            out.setdefault(it[1], []).append((i, it[2], backing))
+    return out
+
+
+def liveness_z3(sk, arch_kind, wl_kind, nvar, K, persistent=(), n_inst=None):
+    """Returns {memory: (list of per-time-step occupancy terms in VALUES per tensor -> dict)}.
+    For every memory: list over guarded time steps tau of (guard, {tensor: z3 Int live values}).
+    Semantics: the outermost (backing) holder of a tensor keeps its whole tile during its visit;
+    every other holder keeps element e from its first to its last use inside the current visit.
+    Element e of a holder = one digit per RELEVANT loop below the holder; it is used at the steps
+    whose relevant digits equal e's digits, so first use = (e's digits, 0 on irrelevant loops) and
+    last use = (e's digits, n_j - 1 on irrelevant loops); live at tau <=> first <= tau <= last
+    (lexicographic = program order)."""
+    ename, tensors, outs, rvs, kinds, comp, L, chains = _struct(sk, arch_kind, wl_kind)
+    hb = holders_by_memory(sk, arch_kind, wl_kind)
+    simple = all(len(d) == 1 for t in tensors for d in tensors[t])
+    if not simple:
+        raise NotImplementedError("element liveness is encoded for plain projections only")
+
+    def ext(v, pos):
+        r = z3.IntVal(1)
+        for j in L:
+            if j > pos and sk[j][1] == v:
+                r = r * nvar[j]
+        return r
+
+    def tile(t, pos):
+        r = z3.IntVal(1)
+        for d in tensors[t]:
+            r = r * ext(d[0], pos)
+        return r
+
+    def lex_le(a, b):
+        """a <= b lexicographically; entries are python ints or z3 terms."""
+        if not a:
+            return z3.BoolVal(True)
+        x, y = a[0], b[0]
+        lt = (x < y) if not (isinstance(x, int) and isinstance(y, int)) else z3.BoolVal(x < y)
+        eq = (x == y) if not (isinstance(x, int) and isinstance(y, int)) else z3.BoolVal(x == y)
+        return z3.Or(lt, z3.And(eq, lex_le(a[1:], b[1:])))
+
+    result = {}
+    steps = list(itertools.product(range(K), repeat=len(L)))
+    for mem, hs in hb.items():
+        per_step = []
+        live_cache = {}
+        for tau in steps:
+            g = z3.And([z3.IntVal(i) < nvar[j] for i, j in zip(tau, L) if i > 0]) if any(tau) else z3.BoolVal(True)
+            occ = {}
+            for pos, t, backing in hs:
+                trv = tensor_rvs(tensors[t])
+                if backing:
+                    v = tile(t, pos)
+                    if t in persistent and n_inst is not None:
+                        v = v * n_inst
+                else:
+                    below = [(k, j) for k, j in enumerate(L) if j > pos]
+                    key = (pos, t, tuple(tau[k] for k, j in below))
+                    if key not in live_cache:
+                        rel = [(k, j) for k, j in below if sk[j][1] in trv]
+                        terms = []
+                        for e in itertools.product(range(K), repeat=len(rel)):
+                            ed = dict(zip([k for k, j in rel], e))
+                            ge = [z3.IntVal(x) < nvar[j] for x, (k, j) in zip(e, rel) if x > 0]
+                            first = [ed.get(k, 0) for k, j in below]
+                            last = [ed[k] if k in ed else nvar[j] - 1 for k, j in below]
+                            cur = [tau[k] for k, j in below]
+                            cond = z3.And(*(ge + [lex_le(first, cur), lex_le(cur, last)]))
+                            terms.append(z3.If(cond, 1, 0))
+                        live_cache[key] = z3.Sum(terms) if terms else z3.IntVal(1)
+                    v = live_cache[key]
+                occ[t] = occ[t] + v if t in occ else v
+            per_step.append((g, occ))
+        result[mem] = per_step
+    return result
+
+
+def liveness_concrete(sk, arch_kind, wl_kind, trips, persistent=(), n_inst=1):
+    """Naive element-level simulation: {memory: peak over time of {tensor: live values}} is not
+    separable per tensor, so returns {memory: list over time of {tensor: values}}."""
+    ename, tensors, outs, rvs, kinds, comp, L, chains = _struct(sk, arch_kind, wl_kind)
+    hb = holders_by_memory(sk, arch_kind, wl_kind)
+    steps = list(itertools.product(*[range(trips[j]) for j in L]))
+
+    def coord(step, rv):
+        c = 0
+        for j, i in zip(L, step):
+            if sk[j][1] == rv:
+                c = c * trips[j] + i
+        return c
+
+    out = {}
+    for mem, hs in hb.items():
+        series = [dict() for _ in steps]
+        for pos, t, backing in hs:
+            above = [k for k, j in enumerate(L) if j < pos]
+            uses = {}
+            for ti, st in enumerate(steps):
+                visit = tuple(st[k] for k in above)
+                e = tuple(sum(coord(st, v) for v in d) for d in tensors[t])
+                fl = uses.setdefault(visit, {}).setdefault(e, [ti, ti])
+                fl[1] = ti
+            for ti, st in enumerate(steps):
+                visit = tuple(st[k] for k in above)
+                if backing:
+                    n = len(uses[visit]) * (n_inst if t in persistent else 1)
+                else:
+                    n = sum(1 for e, (f, l) in uses[visit].items() if f <= ti <= l)
+                series[ti][t] = series[ti].get(t, 0) + n
+        out[mem] = series
+    return out
